@@ -18,7 +18,7 @@ open Opcua Opcua.SendRenew Opcua.SendSeq
 
 /-- what the generator matched in `scheduleRenewal` -/
 theorem C16_renew_expr_facts :
-    Gen.RenewExpr.fracNum = 75 ∧ Gen.RenewExpr.fracDen = 100 ∧ Gen.RenewExpr.truncUnitNs = 1000000000 := by decide
+    Gen.RenewExpr.fracNum = 3 ∧ Gen.RenewExpr.fracDen = 4 ∧ Gen.RenewExpr.truncUnitNs = 1000000000 := by decide
 
 /-- the delay is ⌊0.75·L/1000⌋ whole seconds for a lifetime of L ms -/
 theorem C16_delay_formula (L : Nat) : renewDelayNs L = (3 * L / 4000) * 1000000000 := by
